@@ -2,24 +2,36 @@
 from props.C01 import ASSUMPTIONS as A01, TRUSTED as T01
 from props.mandoline_kernels import kernel_tasks, kernel_canaries
 
-ASSUMPTIONS = A01 + ["level loop / last-writer-wins overwrite of Mandoline.plate covered by the bounded run-time layer (R)"]
+ASSUMPTIONS = A01 + ["level loop / last-writer-wins overwrite of Mandoline.plate covered by the bounded run-time layer (R); the worker "
+                     "inputs (compute_mpinput_2d) and the box worker (plate_box) are under contract; plate_box: the number of "
+                     "requested fields is a skeleton parameter (1, 2+None, 0+None)"]
 TRUSTED = T01 + ["numpy: np.repeat / reshape contracts used by expand_array"]
 
 
 def tasks(tier):
-    return kernel_tasks("C08", ["expand"])
+    from props.mandoline_parents import parent_tasks
+    from props.mandoline_boxes import box_tasks
+    return kernel_tasks("C08", ["expand"]) + parent_tasks("C08", 2) + box_tasks("C08", ["plate"])
 
 
 def canaries(tier):
-    return kernel_canaries(["expand"])
+    from props.mandoline_parents import parent_canaries
+    from props.mandoline_boxes import box_canaries
+    return kernel_canaries(["expand"]) + parent_canaries(2) + box_canaries(["plate"])
 
 
 SCENARIO_TIMEOUT = 300
 
 
+NONSQUARE = [[[[0, 0], [11, 7]], [[12, 0], [23, 3]], [[12, 4], [23, 7]]],
+             [[[4, 2], [19, 9]], [[20, 2], [27, 13]], [[4, 10], [19, 13]]],
+             [[[12, 8], [35, 15]], [[36, 8], [51, 27]]]]
+
+
 def scenarios(tier, seed):
     n = 3 if tier == "quick" else 10
-    return [{"kind": "plate", "seed": seed * 1000 + 900 + i, "ndims": 2, "nf": [3, 2, 4][i % 3], "nlevels": [3, 2, 1][i % 3],
+    return [{"kind": "plate", "seed": seed * 1000 + 950, "ndims": 2, "nf": 3, "nfiles": 2, "layout": "shuffled", "n0": [24, 8],
+             "levels": NONSQUARE, "geo_lo": [1.0, -0.5], "dx0": [0.25, 0.5], "ncombos": 6}] + [{"kind": "plate", "seed": seed * 1000 + 900 + i, "ndims": 2, "nf": [3, 2, 4][i % 3], "nlevels": [3, 2, 1][i % 3],
              "nfiles": [2, 3, 1][i % 3], "layout": ["shuffled", "roundrobin"][i % 2], "n0": [[32, 16], [16, 48], [24, 8]][i % 3],
              "geo_lo": [1.0, 2.0], "dx0": [[0.1, 0.2], [0.5, 0.25], [1.0, 1.0]][i % 3], "box_sizes": [8, 16] if i % 2 else None,
              "ncombos": 4 if tier == "quick" else 10} for i in range(n)]
